@@ -748,7 +748,7 @@ def effective_guards(node: ast.AST, root: ast.AST, txt=None, parents_map: Option
     return tuple(sorted(set(out)))
 
 
-def with_helpers(p: Program, fn: FuncInfo, depth: int = 3) -> List[FuncInfo]:
+def with_helpers(p: Program, fn: FuncInfo, depth: int = 3, policy: Optional[Callable[[FuncInfo], bool]] = None) -> List[FuncInfo]:
     """`fn` followed by the private helpers it calls (transitively, to `depth`): the code a maintainer would consider one unit.
     A helper is what collect.default_inline inlines: a repository function `_name` without a behaviour-changing decorator."""
     from .collect import default_inline
@@ -763,7 +763,7 @@ def with_helpers(p: Program, fn: FuncInfo, depth: int = 3) -> List[FuncInfo]:
                     r = p.resolve_call(f, c)
                 except Exception:
                     r = None
-                if isinstance(r, FuncInfo) and r.fq not in seen and default_inline(r):
+                if isinstance(r, FuncInfo) and r.fq not in seen and (policy or default_inline)(r):
                     seen.add(r.fq)
                     out.append(r)
                     nxt.append(r)
